@@ -100,7 +100,8 @@ func runFileSink(rc *RunCtx, prop string, crash bool, faults bool) {
 	}
 	sink := &el.FileSink{Path: logDir}
 	// (names whose extension text also occurs earlier in the name: only the trailing one is the extension)
-	sink.FileName = []string{"ev.log", "ev", "audit.txt", "ev.login.log", "ev.log.log", "v1.0.1.0"}[tp.Choose(6, "fname")]
+	// (and names with a percent sign: a file name is a name, not a format)
+	sink.FileName = []string{"ev.log", "ev", "audit.txt", "ev.login.log", "ev.log.log", "v1.0.1.0", "cpu-100%.log", "50%d.pc%s"}[tp.Choose(8, "fname")]
 	// the configured file name may carry a directory component (Path: /var/log, FileName: app/audit.log): the
 	// sink's files, rotated ones included, live in that directory (which exists) and nowhere else
 	splitName := prop == "C15" && tp.Choose(4, "file-name-with-directory") == 0
